@@ -13,7 +13,12 @@ from typing import (
     Union,
 )
 
-from ..exc import GraphQLLocatedError, GraphQLResponseError
+from ..exc import (
+    CoercionError,
+    GraphQLLocatedError,
+    GraphQLResponseError,
+    ResolverError,
+)
 from ..lang import ast
 from ..schema import Field, ObjectType, Schema
 from ..schema.introspection import (
@@ -150,13 +155,19 @@ class ResolutionContext:
         try:
             return self._grouped_fields[cache_key]
         except KeyError:
-            self._grouped_fields[cache_key] = grouped_fields = collect_fields(
-                self.schema,
-                parent_type,
-                selections,
-                self.fragments,
-                self.variables,
-            )
+            try:
+                grouped_fields = collect_fields(
+                    self.schema,
+                    parent_type,
+                    selections,
+                    self.fragments,
+                    self.variables,
+                )
+            except CoercionError as err:
+                # Invalid `@skip` / `@include` condition at runtime (e.g. a
+                # nullable variable with a default value explicitly set to
+                # null): this is an error of the enclosing field, not a crash.
+                raise ResolverError(str(err), nodes=err.nodes) from err
 
             self._grouped_fields[cache_key] = grouped_fields
             return grouped_fields
